@@ -14,9 +14,9 @@ RULE = ("random expression trees over decimal literals (integers with leading ze
         "Fraction evaluation of the tree; division by zero incl. 0^-k must come back as an error. "
         "non-trivial = distinct query text with >=2 operators of >=2 different kinds")
 
-def judge_reply(acc, text, tree, expected, rep, build_kind, style):
+def judge_reply(acc, text, tree, expected, rep, build_kind, style, logging=False):
     """expected: Fraction, or 'divzero'."""
-    case = {"query": text, "build": build_kind, "style": style,
+    case = {"query": text, "build": build_kind, "style": style, "trace_logging": logging,
             "expected": "divide-by-zero error" if expected == "divzero" else [str(expected.numerator), str(expected.denominator)]}
     if "panic" in rep:
         acc.violate("panic:" + rep.get("panic_loc", "?"), "panic while evaluating %r: %s" % (text, rep["panic"]), dict(case, observed=rep))
@@ -83,10 +83,16 @@ def shard(p):
         cases.append((t, e))
     for kind in p["builds"]:
         binp = p["bins"][kind]
-        d = Driver(binp)
+        # every fourth shard evaluates with a logger installed at trace level (RUST_LOG): whether logging is enabled must not change
+        # any result (a traced twin of the evaluation loop, seed C01-h; lazily evaluated log arguments, seed C03-e)
+        logging = p["shard"] % 4 == 3
+        d = Driver(binp, env={"RUST_LOG": "anything=trace"} if logging else None)
+        if logging:
+            acc.count("evaluations_with_trace_logging_enabled", 2 * len(cases))
         try:
             for style in ("full", "min"):
-                texts = [exact.render(t, style) for t, _ in cases]
+                # (a quarter of the trees spell the power operator `**`)
+                texts = [exact.render(t, style).replace(" ^ ", " ** ") if i % 4 == 1 else exact.render(t, style) for i, (t, _) in enumerate(cases)]
                 reqs = [{"op": "query", "q": q} for q in texts]
                 reps = []
                 for i in range(0, len(reqs), 1000):
@@ -105,7 +111,7 @@ def shard(p):
                         acc.nontriv(q)
                     acc.count("divzero_cases" if e == "divzero" else "value_cases")
                     acc.seen("operator_multisets", "".join(sorted(ops)))
-                    judge_reply(acc, q, t, e, rep, kind, style)
+                    judge_reply(acc, q, t, e, rep, kind, style, logging)
                     if style == "min" and kind == p["builds"][0]:
                         acc.sample({"query": q, "exact": "divide-by-zero" if e == "divzero" else str(e),
                                     "observed": [it.get("ok", {}).get("v") or it.get("err", {}).get("msg") for it in rep.get("items", [])]}, cap=2)
@@ -134,7 +140,7 @@ def replay(path):
     v = json.load(open(path))
     c = v["case"]
     b = build.build(c.get("build", "dbg"))["vdriver"]
-    with Driver(b) as d:
+    with Driver(b, env={"RUST_LOG": "anything=trace"} if c.get("trace_logging") else None) as d:
         rep = d.call({"op": "query", "q": c["query"]})
     print(json.dumps({"query": c["query"], "expected": c["expected"], "observed_now": rep.get("items", rep)}, ensure_ascii=False))
     return 0
